@@ -94,6 +94,14 @@ def run(rep, tier):
     for c in range(256):
         rep.add('R4', 'byte=0x%02X' % c, c not in probs, pos(rt.node) + ' hexasm::Lexer::readToken',
                 probs.get(c, 'END_OF_FILE reached'), nontrivial=(c in (0x23, 0x20, 0x0A, 0x2D) or chr(c).isalnum()))
+    if tier == 'thorough':
+        import itertools
+        reps = [0x20, 0x0A, 0x23, 0x7C, 0x22, 0x27, 0x5C, 0x61, 0x30, 0x2D, 0x3A, 0x3C, 0x7E, 0x3D, 0x80, 0xFF]
+        pairs = list(itertools.product(reps, repeat=2)) + [(a, b, c) for a in (0x22, 0x27, 0x23, 0x7C) for b in (0x5C, 0x61) for c in (0x5C, 0x22, 0x27, 0x0A)]
+        probs = dict(robust.lexer_terminates(idx, 'hexasm', pairs))
+        for pr in pairs:
+            rep.add('R4', 'bytes=' + ' '.join('%02X' % b for b in pr), pr not in probs, pos(rt.node) + ' hexasm::Lexer::readToken',
+                    probs.get(pr, 'END_OF_FILE or a diagnostic is reached'), nontrivial=True)
     # R5: downcasts
     rep.rule('R5', 'every dynamic_cast whose result is dereferenced is null-tested or sits under the token/predicate guard recorded for its function', floor=6)
     for f in idx.all_funcs():
